@@ -51,7 +51,13 @@ pub fn vm_bound(code: &[u8], k: &Knobs) -> u64 {
 
 fn gen_knobs(r: &mut Rng, code: &[u8]) -> Knobs {
     let mut k = Knobs {
-        gas_limit:        if r.chance(1, 3) { 30_000_000 } else { r.log_range(200, 30_000_000) as usize },
+        // Low limits often: the gas bound only bites when threads actually
+        // run out, ideally several fork generations deep.
+        gas_limit:        match r.below(10) {
+            0..=3 => r.log_range(100, 3_000) as usize,
+            4..=6 => 30_000_000,
+            _ => r.log_range(200, 30_000_000) as usize,
+        },
         max_iterations:   r.range(1, 12) as usize,
         max_forks:        r.range(1, 60) as usize,
         value_size_limit: *r.pick(&[10usize, 50, 250, 250, 1000]),
